@@ -260,11 +260,12 @@ def build_obj(kind, seed):
         return U.random_nfa(rng, rng.randint(1, 3), rng.choice(["a", "ab"]), eps=eps, prefix=rng.choice(["s", "q"]))
     if kind == "pda":
         eps = rng.choice(["ε", "_", "e"])
-        P, _ = U.random_pda(rng, rng.randint(1, 3), rng.choice(["a", "ab"]), rng.choice(["X", "XY", "X$"]),
+        P, _ = U.random_pda(rng, rng.randint(1, 3), rng.choice(["a", "ab"]), rng.choice(["X", "XY", "X$", "X%", "%#", "~&*"]),
                             ntrans=rng.randint(1, 5), eps=eps, prefix=rng.choice(["s", "q"]))
         return P
     blank = rng.choice(["_", "□", "B"])
-    return U.random_tm(rng, rng.randint(1, 2), rng.choice(["a", "ab"]), rng.choice(["", "x"]), blank, rng.choice([0.1, 0.4]))
+    return U.random_tm(rng, rng.randint(1, 2), rng.choice(["a", "ab"]), rng.choice(["", "x", "", "x", "%", "#%"]), blank,
+                       rng.choice([0.1, 0.4]))
 
 
 def case(src):
